@@ -5,6 +5,13 @@ Monitors:
              instances + fresh instances on one shared file; after every operation the raw
              file (decoded by an independent layout decoder) and every view
              (get / get_all / get_resolving_keys) are compared with the model
+  nscount    the same monitor over directed histories that change the NUMBER of namespaces in
+             the file: two named namespaces with 1-2 peers each and a store without namespace,
+             one live instance of every kind opened BEFORE the first step and a fresh one of
+             every kind after each step; deletions of the last peer, delete_all, namespaces
+             appearing.  A namespace that was in the file stays in the model when it loses its
+             last entry, so a store without namespace keeps resolving as before; a file that
+             drops the emptied namespace is tolerated only as long as no store's view differs
   roundtrip  every present/absent combination of the six keys x address types x link-key
              types, sub-fields (authenticated, ediv, rand) rotated through all 8 settings;
              checked through a fresh store, through the raw file layout, and from files
@@ -35,7 +42,10 @@ LEVEL = 'fault_enumeration'
 RULE = ('history: seeded random operation sequences over 2-4 peers x 1-3 named namespaces (+ a '
         'store without namespace) x 1-4 instances on one file with re-opening; non-trivial when '
         'it had >=2 namespaces or >=2 instances and at least one merge-update and one deletion; '
-        'distinct = distinct operation sequence. roundtrip: distinct = (present keys, address '
+        'distinct = distinct operation sequence. nscount: the same over directed files (which of two named namespaces, '
+        '__DEFAULT__ and a foreign one exist, with 0-2 entries each) with 1-2 peers, one live store of every kind (named A, '
+        'named B, without namespace) opened before the first step, delete-heavy operation mix, so that namespaces lose their '
+        'last entry and new ones appear every few steps. roundtrip: distinct = (present keys, address '
         'type, link-key type, sub-field setting). crash: one (initial database, store kind, '
         'operation) configuration; every crash point until the operation completes without the '
         'failpoint firing; distinct = (configuration, mode, n); non-trivial when the failpoint '
@@ -43,8 +53,11 @@ RULE = ('history: seeded random operation sequences over 2-4 peers x 1-3 named n
 ASSUMPTIONS = [
     'process death, not power loss: whatever reached write(2) before the exit is on disk; no fsync is demanded',
     'deleting a name that is not stored may raise KeyError or do nothing, but must change nothing',
-    'whether a namespace without entries is present in the file is left open (observed, then used for the '
-    'default-namespace rule only)',
+    'a namespace that loses its last entry (delete of the last peer, delete_all) keeps counting as a namespace '
+    'of the file for the default-namespace rule: were it dropped, a deletion in namespace A would make a store '
+    'without namespace adopt namespace B (return B\'s entries, write its next update into B). A file that omits '
+    'the emptied namespace is accepted as long as every store of every kind still shows what the model says; '
+    'only delete_all through a store whose namespace is not in the file may or may not create it (observed)',
     'get_resolving_keys: a peer name ending in /P is a public device address whatever address_type is stored; '
     'without stored address_type the address is random (base-class rule)',
     'isolation is asserted for explicitly named namespaces; a store without namespace follows the documented '
@@ -57,12 +70,22 @@ MIN_EVENTS = {
               'crash_points_line': 180, 'crash_points_write': 100, 'crash_points_fs': 80,
               'crash_fired': 380, 'crash_points_update': 180, 'crash_points_delete': 70,
               'crash_points_delete_all': 60, 'crash_states_inspected': 380, 'recovery_updates': 380,
-              'strace_runs': 5, 'strace_renames_onto_final': 4},
+              'strace_runs': 5, 'strace_renames_onto_final': 4,
+              'nscount_histories': 300, 'nscount_ops': 2500, 'ns_emptied_by_delete_of_last_peer': 300,
+              'ns_emptied_by_delete_all': 100, 'ns_emptied_where_dropping_would_redirect_default': 120,
+              'ns_appeared': 300, 'ns_appeared_redirecting_default': 100,
+              'default_store_views_after_namespace_count_event': 1500,
+              'live_default_store_views_after_namespace_count_event': 400},
     'thorough': {'oracle_evals': 1500000, 'history_ops': 40000, 'fresh_store_views': 120000, 'roundtrips': 4032,
                  'crash_points_line': 1100, 'crash_points_write': 4000, 'crash_points_fs': 480,
                  'crash_fired': 5500, 'crash_points_update': 3500, 'crash_points_delete': 800,
                  'crash_points_delete_all': 1000, 'crash_states_inspected': 5500, 'recovery_updates': 5500,
-                 'strace_runs': 15, 'strace_renames_onto_final': 11},
+                 'strace_runs': 15, 'strace_renames_onto_final': 11,
+                 'nscount_histories': 3000, 'nscount_ops': 25000, 'ns_emptied_by_delete_of_last_peer': 3000,
+                 'ns_emptied_by_delete_all': 1000, 'ns_emptied_where_dropping_would_redirect_default': 1200,
+                 'ns_appeared': 3000, 'ns_appeared_redirecting_default': 1000,
+                 'default_store_views_after_namespace_count_event': 15000,
+                 'live_default_store_views_after_namespace_count_event': 4000},
 }
 CASE_TIMEOUT = 3600          # a loaded machine stretches fork latency a hundredfold; expiry = inconclusive
 SHARD_TIMEOUT = {'quick': 1800, 'thorough': 14400}
@@ -245,26 +268,46 @@ def first_diff(a, b):
     return 'none'
 
 
-async def history(rng: random.Random, r, weird_ok=True):
+NSCOUNT_FILES = ('A1', 'A1 B1', 'A1 B0', 'A0 B1', 'A1 B1 D1', 'A2 B1', 'F1', 'A1 F1', 'A1 B1 F0', 'D1', 'A1 D0')
+
+
+async def history(rng: random.Random, r, weird_ok=True, profile='random'):
     from bumble.keys import JsonKeyStore
 
+    nscount = profile == 'nscount'
     base = tempfile.mkdtemp(prefix='c15h-')
     try:
-        layout = rng.choice(['nofile', 'nodir', 'emptyobj', 'prefilled', 'prefilled'])
+        if nscount:
+            layout = rng.choice(['nofile', 'emptyobj', 'prefilled', 'prefilled', 'prefilled'])
+        else:
+            layout = rng.choice(['nofile', 'nodir', 'emptyobj', 'prefilled', 'prefilled'])
         path = os.path.join(base, 'a', 'b', 'keys.json') if layout == 'nodir' else os.path.join(base, 'keys.json')
-        nns = rng.choice([1, 2, 2, 3])
+        nns = 2 if nscount else rng.choice([1, 2, 2, 3])
         namespaces = rng.sample(NAMESPACES, nns)
-        use_default = rng.random() < 0.4
+        use_default = nscount or rng.random() < 0.4
         ns_args = list(namespaces) + ([rng.choice([None, '', ref.DEFAULT_NAMESPACE])] if use_default else [])
-        peers = rng.sample(PEERS, rng.randint(2, 4))
+        peers = rng.sample(PEERS, rng.randint(1, 2) if nscount else rng.randint(2, 4))
         weird = []
-        if weird_ok and rng.random() < 0.2:
+        if weird_ok and not nscount and rng.random() < 0.2:
             weird = [rng.choice(WEIRD_PEERS)]
         allpeers = peers + weird
         model = ref.Model()
         if layout == 'emptyobj':
             with open(path, 'w') as f:
                 f.write('{}')
+        elif layout == 'prefilled' and nscount:
+            # directed files: which namespaces exist and how many entries each holds (0 = an empty
+            # namespace, as the store itself leaves behind after deleting the last peer)
+            shape = rng.choice(NSCOUNT_FILES)
+            names = {'A': namespaces[0], 'B': namespaces[1], 'D': ref.DEFAULT_NAMESPACE, 'F': 'foreign:ns'}
+            db = {}
+            for tok in shape.split():
+                db[names[tok[0]]] = {p: (rand_fields(rng) or {'ltk': rand_key(rng)})
+                                     for p in (PEERS[:2] if tok[1] == '2' and len(allpeers) < 2 else allpeers)[:int(tok[1])]}
+            model = ref.Model(db)
+            r.ev('nscount_file_' + shape.replace(' ', '+'))
+            with open(path, 'w', encoding='utf-8') as f:
+                json.dump(ref.encode_db(model.db), f, indent=rng.choice([None, 2]))
         elif layout == 'prefilled':
             pool = list(namespaces) + ['foreign:ns'] + ([ref.DEFAULT_NAMESPACE] if rng.random() < 0.2 else [])
             model = ref.Model(rand_db(rng, rng.sample(pool, rng.randint(1, len(pool))), allpeers, weird))
@@ -280,11 +323,19 @@ async def history(rng: random.Random, r, weird_ok=True):
             instances.append((JsonKeyStore(ns_arg, path), ns_arg))
             return ns_arg
 
-        for _ in range(rng.randint(1, 2)):
-            open_instance()
+        if nscount:
+            # one store of every kind (named A, named B, without namespace) exists BEFORE the first step
+            for a in ns_args:
+                instances.append((JsonKeyStore(a, path), a))
+            r.ev('nscount_histories')
+        else:
+            for _ in range(rng.randint(1, 2)):
+                open_instance()
         ops = []
         n_merge = n_del = 0
         max_inst = len(instances)
+        tolerated_dropped = {}      # emptied namespace the file no longer lists -> 'op/store kind' that dropped it
+        count_event = [False]       # the last operation emptied a namespace or made one appear
 
         def ctx():
             return f'layout={layout} ns_args={ns_args} ops={ops[-12:]} model={show_db(model.db)}'
@@ -299,15 +350,35 @@ async def history(rng: random.Random, r, weird_ok=True):
         async def verify(opname):
             before = file_bytes()
             seen_fresh = set()
+            fresh_args = list(ns_args)
+            if tolerated_dropped and not use_default:
+                fresh_args.append(None)
+            in_file = None
+            if tolerated_dropped:
+                st, rawdb = read_raw(path)
+                in_file = ref.Model(rawdb) if st == 'ok' else None
             for who, (store, ns_arg) in ([('live', i) for i in instances] +
-                                         [('fresh', (None, a)) for a in ns_args]):
+                                         [('fresh', (None, a)) for a in fresh_args]):
                 if who == 'fresh':
                     store = JsonKeyStore(ns_arg, path)
                     r.ev('fresh_store_views')
                 vk = model.kind(ns_arg)
-                ok = await compare_views(store, ns_arg, model, r, allpeers,
-                                         lambda clause: f'view/{clause}/{who}-store/{vk}',
-                                         lambda: f'after {opname}; viewing ns_arg={ns_arg!r}; ' + ctx())
+                if count_event[0] and vk.startswith('default'):
+                    r.ev('default_store_views_after_namespace_count_event')
+                    r.ev(f'{who}_default_store_views_after_namespace_count_event')
+
+                def keyfn(clause, who=who, vk=vk, ns_arg=ns_arg):
+                    if (in_file is not None and vk.startswith('default')
+                            and in_file.resolve(ns_arg) != model.resolve(ns_arg)):
+                        # the store without namespace now resolves to a foreign namespace because an
+                        # emptied namespace vanished from the file
+                        by = sorted(set(tolerated_dropped.values()))[0]
+                        return f'isolation/default-store-redirected/namespace-dropped-by-{by}/{clause}/{who}-store'
+                    return f'view/{clause}/{who}-store/{vk}'
+
+                ok = await compare_views(store, ns_arg, model, r, allpeers, keyfn,
+                                         lambda: f'after {opname}; viewing ns_arg={ns_arg!r}; '
+                                                 f'namespaces dropped from the file={tolerated_dropped}; ' + ctx())
                 if not ok:
                     return False
             r.ev('oracle_evals')
@@ -318,26 +389,32 @@ async def history(rng: random.Random, r, weird_ok=True):
 
         if not await verify('open'):
             return None
-        length = rng.randint(4, 36)
+        length = rng.randint(5, 16) if nscount else rng.randint(4, 36)
         for _step in range(length):
             op = rng.choices(['update', 'delete', 'delete_missing', 'delete_all', 'open', 'close'],
-                             [7, 2.5, 0.5, 0.7, 1.2, 0.6])[0]
+                             [4, 4.5, 0.4, 1.3, 0.5, 0.3] if nscount else [7, 2.5, 0.5, 0.7, 1.2, 0.6])[0]
             if op == 'open':
-                if len(instances) >= 4:
+                if len(instances) >= (6 if nscount else 4):
                     continue
                 ops.append(('open', open_instance()))
                 max_inst = max(max_inst, len(instances))
                 continue
             if op == 'close':
-                if len(instances) <= 1:
+                if len(instances) <= (3 if nscount else 1):
                     continue
-                instances.pop(rng.randrange(len(instances)))
+                instances.pop(rng.randrange(3 if nscount else 0, len(instances)))
                 ops.append(('close',))
                 continue
             store, ns_arg = rng.choice(instances)
             kind = model.kind(ns_arg)
             target = model.resolve(ns_arg)
             r.ev('history_ops')
+            if nscount:
+                r.ev('nscount_ops')
+            count_event[0] = False
+            pre_ns = set(model.db)
+            pre_entries = len(model.db.get(target, {}))
+            pre_default = model.resolve(None)
             exc = None
             if op == 'update':
                 peer = rng.choice(allpeers)
@@ -394,15 +471,39 @@ async def history(rng: random.Random, r, weird_ok=True):
                     r.bad(f'exact/raw-file-{status}/{op}/{kind}', f'file after {op}: {status} {raw}; {ctx()}')
                     return None
             else:
-                model.sync_empty_namespaces(raw)
-                if raw != model.db:
-                    others = [ns for ns in set(raw) | set(model.db)
-                              if ns != target and raw.get(ns) != model.db.get(ns)]
+                # ---- the number of namespaces ------------------------------------------------
+                if op == 'delete_all' and target not in pre_ns:
+                    r.ev('delete_all_on_namespace_not_in_file')
+                    if target not in raw:       # left open: it may or may not create the namespace
+                        model.db.pop(target, None)
+                for ns in list(tolerated_dropped):
+                    if ns in raw:
+                        del tolerated_dropped[ns]
+                for ns in model.db:
+                    if not model.db[ns] and ns not in raw and ns not in tolerated_dropped:
+                        tolerated_dropped[ns] = f'{op}/{kind}'
+                        r.ev('emptied_namespaces_dropped_from_file')
+                count_event[0] = False
+                if pre_entries and not model.db.get(target, True):
+                    count_event[0] = True
+                    r.ev('ns_emptied_by_' + ('delete_all' if op == 'delete_all' else 'delete_of_last_peer'))
+                    without = ref.Model({ns: v for ns, v in model.db.items() if ns != target})
+                    if use_default and without.resolve(None) != model.resolve(None):
+                        r.ev('ns_emptied_where_dropping_would_redirect_default')
+                if target not in pre_ns and target in model.db:
+                    count_event[0] = True
+                    r.ev('ns_appeared')
+                    if use_default and target != ref.DEFAULT_NAMESPACE and model.resolve(None) != pre_default:
+                        r.ev('ns_appeared_redirecting_default')
+                expect_raw = {ns: v for ns, v in model.db.items() if ns not in tolerated_dropped}
+                if raw != expect_raw:
+                    others = [ns for ns in set(raw) | set(expect_raw)
+                              if ns != target and raw.get(ns) != expect_raw.get(ns)]
                     if others:
                         r.bad(f'isolation/other-namespace-changed/{op}/{kind}',
                               f'{op} on {target!r} changed {others}: file={show_db(raw)}; {ctx()}')
                     else:
-                        e, g = model.db.get(target, {}), raw.get(target, {})
+                        e, g = expect_raw.get(target, {}), raw.get(target, {})
                         bad_peers = sorted(p for p in set(e) | set(g) if e.get(p) != g.get(p))
                         member = first_diff(e.get(bad_peers[0]), g.get(bad_peers[0])) if bad_peers else 'none'
                         r.bad(f'exact/raw-file/{op}/{kind}/{member}',
@@ -1263,6 +1364,8 @@ def plan(tier, seed):
     nh = 48 if quick else 200
     for i in range(nh):
         cases.append({'kind': 'history', 'seed': seed * 100003 + i, 'histories': 12 if quick else 25})
+    for i in range(32 if quick else 200):
+        cases.append({'kind': 'nscount', 'seed': seed * 100019 + i, 'histories': 16 if quick else 25})
     total = len(roundtrip_combos())
     step = 126
     for lo in range(0, total, step):
@@ -1317,20 +1420,20 @@ def plan(tier, seed):
     for c in st:
         cases.append({'kind': 'strace', 'cfg': c})
     # long cases first so that the shards finish together
-    order = {'crash': 0, 'strace': 1, 'history': 2, 'roundtrip': 3}
+    order = {'crash': 0, 'strace': 1, 'history': 2, 'nscount': 2, 'roundtrip': 3}
     cases.sort(key=lambda c: order[c['kind']])
     return cases
 
 
 async def run_case(case, r):
     kind = case['kind']
-    if kind == 'history':
+    if kind in ('history', 'nscount'):
         rng = random.Random(case['seed'])
         s = None
         for _ in range(case['histories']):
-            s = await history(rng, r) or s
+            s = await history(rng, r, profile='nscount' if kind == 'nscount' else 'random') or s
         if s:
-            r.sample = {'kind': 'history', **s}
+            r.sample = {'kind': kind, **s}
     elif kind == 'roundtrip':
         await roundtrip_case(case, r)
     elif kind == 'crash':
@@ -1345,7 +1448,9 @@ LEVEL_TEXT = ('Fault enumeration: for each (initial database x store kind x muta
               '(flushed one by one, also cut in half), and before/after every mkdir/open/close/replace/rename/'
               'unlink - until it completes without the failpoint firing; each resulting directory is re-opened '
               'with json.load, with fresh stores for every namespace, and with one more update. Around it: a '
-              'lock-step dict model over random multi-namespace, multi-instance histories, an exhaustive '
+              'lock-step dict model over random multi-namespace, multi-instance histories and over ~500 (quick) directed '
+              'histories in which namespaces are emptied (last peer deleted, delete_all) or appear while stores of every kind '
+              '- opened before and after the step - are compared with the model, an exhaustive '
               'PairingKeys field-combination round trip checked against an independent layout codec, and an '
               'strace syscall-order checker. The crash points of the enumerated configurations are covered '
               'exhaustively; the configurations and histories themselves are a finite sample.')
